@@ -93,24 +93,29 @@ def skipClasses (p : Prog) : Nat → Nat → Nat
 
 /-- `get_global_filters` + `filter_name`: walk the context chain outward, first non-empty
 filter result wins.  `lim` is the position limit; it is reset after a function or module
-context, kept by class and comprehension contexts (a comprehension's own filter ignores it). -/
-def gotoFrom (p : Prog) (x : Nat) : Nat → Nat → Option Nat → List Nat
+context, kept by class and comprehension contexts (a comprehension's own filter ignores it).
+`sel` is `_check_flows`: with flow analysis on, only the last definition survives (`lastOf`);
+`find_references` switches flow analysis off while collecting defining names, then every
+definition survives (`id`). -/
+def gotoFromSel (sel : List Nat → List Nat) (p : Prog) (x : Nat) : Nat → Nat → Option Nat → List Nat
   | 0, _, _ => []
   | fuel + 1, ctx, lim =>
     match p.kind ctx with
-    | .module => lastOf (defsIn p 0 x lim) ++ globalDecls p x
+    | .module => sel (defsIn p 0 x lim) ++ globalDecls p x
     | .function | .lambda =>
-      match lastOf (defsIn p ctx x lim) with
-      | [] => gotoFrom p x fuel (skipClasses p p.scopes.length (p.parent ctx)) none
+      match sel (defsIn p ctx x lim) with
+      | [] => gotoFromSel sel p x fuel (skipClasses p p.scopes.length (p.parent ctx)) none
       | r => r
     | .klass =>
-      match lastOf (defsIn p ctx x lim) with
-      | [] => gotoFrom p x fuel (p.parent ctx) lim
+      match sel (defsIn p ctx x lim) with
+      | [] => gotoFromSel sel p x fuel (p.parent ctx) lim
       | r => r
     | .comp =>
-      match lastOf (defsIn p ctx x none) with
-      | [] => gotoFrom p x fuel (p.parent ctx) lim
+      match sel (defsIn p ctx x none) with
+      | [] => gotoFromSel sel p x fuel (p.parent ctx) lim
       | r => r
+
+abbrev gotoFrom := gotoFromSel lastOf
 
 /-- `Script.goto` on occurrence `u`: definitions land on themselves; uses and
 `global`/`nonlocal` names are looked up from their own position -/
